@@ -123,14 +123,29 @@ func PubKeyToAddr(addressID int32, pubKey []byte) string {
 // blockHeight is used for enable check, pass -1 if there is no block height context
 func CheckAddress(addr string, blockHeight int64) (e error) {
 
-	if value, ok := checkAddressCache.Get(addr); ok {
+	// 校验结果取决于 blockHeight 时启用了哪些地址驱动, 缓存的 key 必须带上这一状态,
+	// 否则在某个高度得到的结果会被其他高度的查询复用
+	key := make([]byte, 0, int(MaxID)+1+len(addr))
+	for id := int32(0); id <= MaxID; id++ {
+		d, ok := drivers[id]
+		if ok && isEnable(blockHeight, d.enableHeight) {
+			key = append(key, '1')
+		} else {
+			key = append(key, '0')
+		}
+	}
+	key = append(key, addr...)
+	cacheKey := string(key)
+	if value, ok := checkAddressCache.Get(cacheKey); ok {
 		if value != nil {
 			return value.(error)
 		}
 		return nil
 	}
-	for _, d := range drivers {
-		if !isEnable(blockHeight, d.enableHeight) {
+	// 按 id 顺序遍历, 返回的错误不依赖 map 的遍历顺序
+	for id := int32(0); id <= MaxID; id++ {
+		d, ok := drivers[id]
+		if !ok || !isEnable(blockHeight, d.enableHeight) {
 			continue
 		}
 		e = d.driver.ValidateAddr(addr)
@@ -138,7 +153,7 @@ func CheckAddress(addr string, blockHeight int64) (e error) {
 			break
 		}
 	}
-	checkAddressCache.Add(addr, e)
+	checkAddressCache.Add(cacheKey, e)
 	return e
 }
 
